@@ -77,13 +77,14 @@ def run(ck: Check) -> int:
 
     def s_search(sr):
         deep = ck.deep()
-        ps = pats if (deep or not quick) else pats[:1800]
+        ps = pats if (deep or not quick) else pats[:3000]
         if deep and quick:
             ps = ps + [P.gen_path(R) for _ in range(12000)]
         cases = [(p, gen.random_flags(R, [G.G, G.G, G.X, G.D, G.E, G.E, G.I], 0.4, G.U)) for p in ps]
         may = P.pspec(drv, G, cases, paths, 1) if drv else []
         must = P.pspec(drv, G, cases, paths, 2) if drv else []
         n_hidden = 0
+        hidden_idx = [j for j, n in enumerate(paths) if '\n' not in n and any(x.startswith('.') for x in n.split('/') if x)]
         for k, ((p, fl), o, o2) in enumerate(zip(cases, may, must)):
             f = o.split(' ')
             if f[0] != 'ok':
@@ -101,8 +102,13 @@ def run(ck: Check) -> int:
                     # exclude with `p`; compare with the DOTGLOB match of `p`
                     nod = fl & ~G.D
                     exd = G.compile(p, flags=fl | G.D)
+                    # (on 48 of the hidden paths per pattern: each call compiles a fresh inclusion pattern, which dominated the run)
+                    pick = set(hidden_idx if len(hidden_idx) <= 48 else R.sample(hidden_idx, 48))
                     excl = []
-                    for n in paths:
+                    for j, n in enumerate(paths):
+                        if j not in pick:
+                            excl.append((False, False, False))
+                            continue
                         inc = G.escape(n)
                         excl.append((G.globmatch(n, inc, flags=nod), G.globmatch(n, inc, flags=nod, exclude=p), exd.match(n)))
             except common.CallTimeout:
